@@ -206,7 +206,8 @@ def _run_cli_once(case: dict, env_extra: dict | None = None, cwd: str | None = N
         if sentinel is not None:
             with open(p['out'], 'wb') as f:
                 f.write(sentinel)
-        args = [PYTHON, '-m', 'bespokeasm', 'compile', p['main'], '-c', p['config'], '-o', p['out']]
+        rel = (lambda x: os.path.relpath(x, d)) if case.get('relative_paths') else (lambda x: x)     # paths as typed from inside the project directory
+        args = [PYTHON, '-m', 'bespokeasm', 'compile', rel(p['main']), '-c', p['config'], '-o', p['out']]
         if case.get('start'):
             args += ['-s', str(case['start'])]
         if case.get('end') is not None:
@@ -217,7 +218,7 @@ def _run_cli_once(case: dict, env_extra: dict | None = None, cwd: str | None = N
             args += ['-p', '-t', case['pretty'], '--pretty-print-output', p['pp']]
         incs = inc_order if inc_order is not None else case.get('include_dirs', [])
         for i in incs:
-            args += ['-I', os.path.join(d, i)]
+            args += ['-I', rel(os.path.join(d, i))]
         for s in case.get('defines', []):
             args += ['-D', s]
         env = {'PATH': os.environ.get('PATH', '/usr/bin:/bin'), 'PYTHONPATH': REPO_SRC, 'PYTHONHASHSEED': '0',
